@@ -214,7 +214,7 @@ func runS2Job(j *check.Job) *check.Result {
 			fmt.Println("  ", line)
 		}
 		for _, v := range out.Violations {
-			res.Violations = append(res.Violations, check.Violation{Scenario: j.Name, Oracle: v.Oracle, Detail: v.Detail, Info: v.Info, Tags: oracleTags(v.Oracle)})
+			res.Violations = append(res.Violations, check.Violation{Scenario: j.Name, Oracle: v.Oracle, Detail: v.Detail, Info: v.Info, Tags: violationTags(v.Oracle, v.Detail)})
 		}
 		res.Executions = 1
 		res.Exhaustive = true
@@ -272,7 +272,7 @@ func runS2Job(j *check.Job) *check.Result {
 		if sample == nil {
 			sample = f.Prefix
 		}
-		res.Violations = append(res.Violations, check.Violation{Scenario: j.Name, Oracle: f.Oracle, Detail: f.Detail, Info: f.Info, Replay: &check.Replay{Choices: trimZeros(f.Prefix)}, Tags: oracleTags(f.Oracle)})
+		res.Violations = append(res.Violations, check.Violation{Scenario: j.Name, Oracle: f.Oracle, Detail: f.Detail, Info: f.Info, Replay: &check.Replay{Choices: trimZeros(f.Prefix)}, Tags: violationTags(f.Oracle, f.Detail)})
 	}
 	res.Samples = []any{map[string]any{"block": p.Block, "bound": p.Bound, "default_schedule_choice_points": len(o1.Points), "default_outcome": o1.Key}}
 	return res
@@ -303,10 +303,23 @@ func oracleTags(oracle string) []string {
 		return []string{"C08", "C09"}
 	case "liveness":
 		return []string{"C11", "C09", "C02", "C01"}
+	case "store":
+		return []string{"C12", "C01", "C09"}
 	case "groundplane":
 		return []string{"C20", "C09", "C07"}
 	}
 	return nil
+}
+
+// violationTags: oracleTags, plus C10 / C05 for a race at an id source (those
+// two checks run the allocation blocks in the race build; a race elsewhere is
+// not evidence against them).
+func violationTags(oracle, detail string) []string {
+	t := oracleTags(oracle)
+	if oracle == "race" && (strings.Contains(detail, "IDGenerator") || strings.Contains(detail, "ID).") || strings.Contains(detail, "InstanceID") || strings.Contains(detail, "ParticipantID") || strings.Contains(detail, "EntityID")) {
+		t = append(append([]string{}, t...), "C10", "C05")
+	}
+	return t
 }
 
 func trimZeros(c []int) []int {
